@@ -5,7 +5,7 @@ from mirsym.models import val_eq
 from spec import grammar as G
 from . import tok
 from .tokdiff import TokOracle, help_names, assume_not_named, spec_env, run_tok_job
-from .corpus import CORPUS
+from .corpus import CORPUS, C01_GRAMMARS
 
 PROP = "C01"
 
@@ -29,6 +29,9 @@ class Oracle(TokOracle):
 
         def leaf(ex2, sres):
             out["spec_leaves"] += 1
+            if sres[0] == "outside":
+                out["outside"] = out.get("outside", 0) + 1
+                return
             if sres[0] == "ok":
                 if cls != "ok":
                     report("accepts-sentence", words, (cls, payload), ["ok", None], sres[1:])
@@ -49,7 +52,8 @@ class Oracle(TokOracle):
 def make_jobs(tier, seed, build):
     jobs = []
     nmax = 3 if tier == "quick" else 4
-    for gname, g in CORPUS.items():
+    for gname in C01_GRAMMARS:
+        g = CORPUS[gname]
         for n in range(0, nmax + 1):
             for shape in tok.all_shapes(n, g.decl):
                 jobs.append({"id": "%s:%s" % (gname, ",".join(shape)), "grammar": gname, "shape": shape, "fs": "none"})
